@@ -83,7 +83,7 @@ func (o *c02Oracle) GetHistoricalSummaries(epoch uint64) (capella.HistoricalSumm
 	return o.summaries, nil
 }
 func (o *c02Oracle) GetBlockHeaderByHash(hash []byte) (*types.Header, error) { return o.src(hash) }
-func (o *c02Oracle) GetFinalizedStateRoot() ([]byte, error)                 { return nil, errors.New("none") }
+func (o *c02Oracle) GetFinalizedStateRoot() ([]byte, error)                  { return nil, errors.New("none") }
 
 var c02Summaries capella.HistoricalSummaries
 
@@ -923,7 +923,7 @@ func (e *c02Env) cross(a, b *c02Block) {
 		if a.content(t) == nil {
 			continue
 		}
-		e.vc("cross_content", b.key(t), a.content(t), b.header)  // honest source: header of B
+		e.vc("cross_content", b.key(t), a.content(t), b.header) // honest source: header of B
 		if t == 1 || t == 2 {
 			e.vc("cross_source_lies", b.key(t), a.content(t), a.header) // lying source: serves A's header for B's hash
 			e.vc("cross_source_lies_genuine_content", b.key(t), b.content(t), a.header)
@@ -1082,7 +1082,7 @@ func (s *c02Storage) poke(contentId []byte, content []byte) {
 	s.mu.Unlock()
 }
 func (s *c02Storage) Radius() *uint256.Int { return storage.MaxDistance }
-func (s *c02Storage) Close() error          { return nil }
+func (s *c02Storage) Close() error         { return nil }
 func (s *c02Storage) reset() {
 	s.mu.Lock()
 	s.db = map[string][]byte{}
@@ -1159,13 +1159,13 @@ func c02StartNode(boot []*enode.Node, start bool) (*c02Node, error) {
 }
 
 type c02Net struct {
-	e      *c02Env
-	a, b   *c02Node // a = node under test (recording storage), b = the "network": serves whatever the harness stores
-	net    *history.Network
-	remote map[string]bool
+	e         *c02Env
+	a, b      *c02Node // a = node under test (recording storage), b = the "network": serves whatever the harness stores
+	net       *history.Network
+	remote    map[string]bool
 	rpcOracle *validation.ValidationOracle
-	val    *c02Validator    // what the networks below call: the real validator, or a scripted verdict
-	ev     chan c02Event
+	val       *c02Validator // what the networks below call: the real validator, or a scripted verdict
+	ev        chan c02Event
 }
 
 func c02StartNet(e *c02Env) (*c02Net, error) {
@@ -1215,11 +1215,11 @@ func (n *c02Net) itemStr(it c02Item) string {
 }
 
 type c02Op struct {
-	getter  int // -1 = offer
-	items   []c02Item
-	hash    []byte
-	remote  []byte // nil = the lookup finds nothing
-	src     *types.Header
+	getter int // -1 = offer
+	items  []c02Item
+	hash   []byte
+	remote []byte // nil = the lookup finds nothing
+	src    *types.Header
 }
 
 // source used during one op: per key hash (an offered batch may mix blocks)
